@@ -32,6 +32,7 @@ type c20Case struct {
 	Bound    int      `json:",omitempty"`
 	Note     string   `json:",omitempty"`
 	Hung     bool     `json:",omitempty"` // level 2: one more connection whose request (a signature) hangs in the underlying agent forever
+	Direct   []string `json:",omitempty"` // level 2: one more thread calling these methods on the server's shim object in order (no request is received)
 }
 
 type waitBroadcaster interface {
@@ -266,6 +267,31 @@ func c20Level2(k c20Case, prefix []int) (*sched.Scheduler, []int, []bool, int, [
 			ce.Close()
 		})
 	}
+	if len(k.Direct) > 0 {
+		// the owner of the server object uses it directly while clients wait: none of this is "a request with code X was
+		// received", so no waiter may be released by it, whatever the calls return
+		bodies = append(bodies, func() {
+			sh := reflect.ValueOf(srv).Elem().FieldByName("ShimAgent").Interface().(shimagent.ShimAgent)
+			for _, m := range k.Direct {
+				switch m {
+				case "Lock":
+					sh.Lock([]byte("pw"))
+				case "Unlock":
+					sh.Unlock([]byte("pw"))
+				case "UnlockWrong":
+					sh.Unlock([]byte("other"))
+				case "Close":
+					sh.Close()
+				case "RemoveAll":
+					sh.RemoveAll()
+				case "List":
+					sh.List()
+				case "Add":
+					sh.Add(agent.AddedKey{PrivateKey: fix.Ed(1), Comment: "k2"})
+				}
+			}
+		})
+	}
 	cleanupFrom := -1
 	relAtQ := make([]bool, len(released))
 	s.OnQuiescent = func(blocked []int) []func() {
@@ -366,7 +392,7 @@ func traceString(s *sched.Scheduler, max int) string {
 }
 
 func checkC20(c *ev.Ctx) {
-	c.Rule("engine E2 on the real shimagent.Server (Wait/Broadcast) and the real yubiagent server: level 1 = W waiter threads + S broadcaster threads over codes {5,11,39,40,255}: every assignment for (W,S) in {(1,1),(2,1),(1,2)} with all interleavings (unbounded), (2,2),(3,1),(3,2) over codes {5,11} with preemption bound 2 (thorough 3); level 2 = clients on scheduler-visible pipes, one ServeAgent thread per connection, waiters send wait requests and senders send list/add-hardware-certificate/wait/remove-all requests (two scenarios with a further connection whose signature request hangs in the underlying agent for ever, holding the shim's lock), preemption bound 2 and at most 3 departures from the canonical lowest-id-first order at any branch (thorough: 3 and 4); level 3 = all 256 codes sequentially. Oracle on the recorded trace: released => a broadcast of that code after registration; a matching request after registration => released; codes >= 40 never register; after a clean-up broadcast every thread finishes. states = executions (complete interleavings), transitions = scheduling events. non-trivial = execution in which a waiter registered; distinct by (scenario, schedule)")
+	c.Rule("engine E2 on the real shimagent.Server (Wait/Broadcast) and the real yubiagent server: level 1 = W waiter threads + S broadcaster threads over codes {5,11,39,40,255}: every assignment for (W,S) in {(1,1),(2,1),(1,2)} with all interleavings (unbounded), (2,2),(3,1),(3,2) over codes {5,11} with preemption bound 2 (thorough 3); level 2 = clients on scheduler-visible pipes, one ServeAgent thread per connection, waiters send wait requests and senders send list/add-hardware-certificate/wait/remove-all requests (two scenarios with a further connection whose signature request hangs in the underlying agent for ever, holding the shim's lock), preemption bound 2 and at most 3 departures from the canonical lowest-id-first order at any branch (thorough: 3 and 4); level 2 also with a thread that uses the server's shim object directly (6 call sequences of lock / unlock / close / remove-all incl. refused ones) while clients wait; level 3 = all 256 codes sequentially. Oracle on the recorded trace: released => a broadcast of that code after registration; a matching request after registration => released; codes >= 40 never register; after a clean-up broadcast every thread finishes. states = executions (complete interleavings), transitions = scheduling events. non-trivial = execution in which a waiter registered; distinct by (scenario, schedule)")
 	c.Assume("condition variable i of the shim belongs to message code i (ids are assigned in creation order; checked by the registers-on-wrong-code oracle)", "vsync.Cond has the semantics of sync.Cond without spurious wake-ups (litmus-tested)")
 	if c.ReplayCase != nil {
 		var k c20Case
@@ -469,6 +495,11 @@ func checkC20(c *ev.Ctx) {
 		{Level: 2, Waiters: []int{19}, Senders: []int{19}, Hung: true},
 	} {
 		c20Explore(c, sc, b2, d2)
+	}
+	// the server object used directly (lock / unlock / close / remove-all, also refused ones) while clients wait
+	for _, direct := range [][]string{{"Lock", "Close"}, {"Lock", "RemoveAll", "UnlockWrong"}, {"Lock", "Unlock"}, {"Close"}, {"RemoveAll", "List"}, {"Lock", "Add", "Close", "Unlock"}} {
+		c20Explore(c, c20Case{Level: 2, Waiters: []int{11}, Direct: direct}, 1, d2)
+		c20Explore(c, c20Case{Level: 2, Waiters: []int{22, 19}, Direct: direct}, 1, d2)
 	}
 	c.Set("phase_level2_s", time.Since(t0).Seconds())
 	c.Sample(c20Case{Level: 2, Waiters: []int{35}, Senders: []int{35}, Bound: b2})
